@@ -14,7 +14,7 @@ def run(res, pool, tier, seed):
     sd = seed % 1000
     if tier == "quick":
         jobs = [dict(module="MC_Mem.tla", tag="s2", invariants=INVS, timeout=1500,
-                     constants=dict(GENK=set(), NGEN=1, S=2, BODIES=set(POLYH + POLYG), KC=set(KC), KX=set(KX), B=1, SEED=sd, NSHARD=120, NSHARDP=3)),
+                     constants=dict(GENK=set(), NGEN=1, S=2, BODIES=set(POLYH + POLYG), KC=set(KC), KX=set(KX), B=1, SEED=sd, NSHARD=220, NSHARDP=4)),
                 dict(module="MC_Mem.tla", tag="s8-near", invariants=INVS, timeout=1500,
                      constants=dict(GENK=set(), NGEN=1, S=8, BODIES={"tet2", "obl", "octa", "hexObl", "par"}, KC={"Segment", "HalfLine"}, KX={"Point"}, B=1,
                                     SEED=sd, NSHARD=40, NSHARDP=10))]
